@@ -231,7 +231,9 @@ def replay_file(path, obs_module, prop):
     with open(path) as fh:
         body = json.load(fh)
     nroots = (body.get('extra') or {}).get('NRoots') or sum(1 for ops in body['program'] if ops) or 1
-    log, outcome = puppet.run_program(body['program'], nroots=(body.get('extra') or {}).get('NRoots', len(body['program'])))
+    extra = body.get('extra') or {}
+    log, outcome = puppet.run_program(body['program'], nroots=extra.get('NRoots', len(body['program'])),
+                                      **(extra.get('world') or {}))
     check = Check(prop, 'quick', 0)
     rej = check.validate(obs_module, [log], label='replay')
     shutil.rmtree(check.tmp, ignore_errors=True)
